@@ -691,7 +691,32 @@ func execPathsOf(in In, em *Emitter) {
 
 var edgeBytes = []byte{0x00, 0x01, 0x7f, 0x80, 0xfe, 0xff, 0x55, 0xaa}
 
+// runBytes builds a string of n bytes out of runs of one byte value (0x00, 0xff, ...) of lengths around
+// 8 and 16, aligned or not, separated by other bytes: chunked (8 bytes at a time) code treats all-zero or
+// all-equal chunks specially.
+func runBytes(r *rand.Rand, n int) []byte {
+	b := make([]byte, 0, n)
+	if r.Intn(2) == 0 { // misalign the first run
+		for k := r.Intn(8); k > 0 && len(b) < n; k-- {
+			b = append(b, byte(1+r.Intn(255)))
+		}
+	}
+	for len(b) < n {
+		v := []byte{0x00, 0x00, 0xff, 0x80, 0x01, 'a'}[r.Intn(6)]
+		for k := []int{1, 2, 7, 8, 8, 9, 15, 16, 16, 17, 24}[r.Intn(11)]; k > 0 && len(b) < n; k-- {
+			b = append(b, v)
+		}
+		for k := r.Intn(3); k > 0 && len(b) < n; k-- {
+			b = append(b, byte(1+r.Intn(255)))
+		}
+	}
+	return b
+}
+
 func randBytes(r *rand.Rand, n int) []byte {
+	if n >= 9 && r.Intn(5) == 0 {
+		return runBytes(r, n)
+	}
 	b := make([]byte, n)
 	mode := r.Intn(3)
 	for i := range b {
